@@ -16,6 +16,7 @@ pub struct CharReader<R> {
     inner: R,
     buf: [u8; 4],
     buf_len: usize,
+    eof: bool,
 }
 
 impl<R> CharReader<R> {
@@ -24,6 +25,7 @@ impl<R> CharReader<R> {
             inner,
             buf: [0; 4],
             buf_len: 0,
+            eof: false,
         }
     }
 }
@@ -32,33 +34,48 @@ impl<R: Read> Iterator for CharReader<R> {
     type Item = Result<char, CharReaderError>;
 
     fn next(&mut self) -> Option<Self::Item> {
-        if self.buf_len == 0 {
-            self.buf_len = match self.inner.read(&mut self.buf) {
-                Ok(len) => len,
+        loop {
+            if self.buf_len > 0 {
+                let valid_len = match str::from_utf8(&self.buf[0..self.buf_len]) {
+                    Ok(_) => self.buf_len,
+                    Err(e) => {
+                        let valid_len = e.valid_up_to();
+                        // an incomplete sequence at the end of the window is only an
+                        // error once the window is full or the input has ended
+                        if valid_len == 0
+                            && (e.error_len().is_some()
+                                || self.buf_len == self.buf.len()
+                                || self.eof)
+                        {
+                            return Some(Err(e.into()));
+                        }
+                        valid_len
+                    }
+                };
+                if valid_len > 0 {
+                    // Safety: We already checked up to `valid_len`
+                    let s = unsafe { str::from_utf8_unchecked(&self.buf[0..valid_len]) };
+                    let c = s.chars().next().unwrap();
+                    let char_len = c.len_utf8();
+                    self.buf.rotate_left(char_len);
+                    self.buf_len -= char_len;
+                    return Some(Ok(c));
+                }
+            } else if self.eof {
+                return None;
+            }
+
+            // the window is empty or ends in an incomplete sequence: top it up
+            match self.inner.read(&mut self.buf[self.buf_len..]) {
+                Ok(0) => {
+                    self.eof = true;
+                    if self.buf_len == 0 {
+                        return None;
+                    }
+                }
+                Ok(len) => self.buf_len += len,
                 Err(e) => return Some(Err(e.into())),
             }
         }
-
-        if self.buf_len == 0 {
-            return None;
-        }
-
-        let s = match str::from_utf8(&self.buf[0..self.buf_len]) {
-            Ok(s) => s,
-            Err(e) => {
-                let valid_len = e.valid_up_to();
-                if valid_len == 0 {
-                    return Some(Err(e.into()));
-                }
-                // Safety: We already checked up to `valid_len`
-                unsafe { str::from_utf8_unchecked(&self.buf[0..valid_len]) }
-            }
-        };
-
-        let c = s.chars().next().unwrap();
-        let char_len = c.len_utf8();
-        self.buf.rotate_left(char_len);
-        self.buf_len -= char_len;
-        Some(Ok(c))
     }
 }
